@@ -84,7 +84,9 @@ Inductive builtin := BIsspace | BIsdigit | BIsalpha | BIsupper | BIslower | BIsa
                    | BMalloc | BFree | BMemcpy | BMemmove | BMemset
                    | BStrcmp | BStrncmp | BStrrchr | BStrcpy      (* sizes in CELLS: the translator divides the byte counts *)
                    | BAtoi
-                   | BStrcat.
+                   | BStrcat
+                   | BMemsetI.     (* memset on an array of multi-byte integers: every CELL gets the value the repeated fill byte spells in
+                                      that integer type (the translator computes it: memset(int *, 0xff, n) fills with -1) *)
 
 Definition b2z (b : bool) : Z := if b then 1 else 0.
 Definition chk (t : ity) (z : Z) : res Z :=
@@ -275,6 +277,9 @@ Definition do_builtin_m (f : builtin) (args : list val) (m : mem) : res (val * m
   | BMemset, [VPtr bd od; VInt c; VInt n] =>
       if n <? 0 then Err EOob else
       do m' <- write_cells m bd od (repeat (VInt (wrap U8 c)) (Z.to_nat n)); Ok (VPtr bd od, m')
+  | BMemsetI, [VPtr bd od; VInt v; VInt n] =>
+      if n <? 0 then Err EOob else
+      do m' <- write_cells m bd od (repeat (VInt v) (Z.to_nat n)); Ok (VPtr bd od, m')
   | BStrcpy, [VPtr bd od; VPtr bs os] =>
       do l <- blk_from m bs os; do n <- scan0 l O;
       do m' <- write_cells m bd od (firstn (S n) l); Ok (VPtr bd od, m')
@@ -282,7 +287,7 @@ Definition do_builtin_m (f : builtin) (args : list val) (m : mem) : res (val * m
       do ld <- blk_from m bd od; do k <- scan0 ld O;
       do l <- blk_from m bs os; do n <- scan0 l O;
       do m' <- write_cells m bd (od + Z.of_nat k) (firstn (S n) l); Ok (VPtr bd od, m')
-  | BMalloc, _ | BFree, _ | BMemcpy, _ | BMemmove, _ | BMemset, _ | BStrcpy, _ | BStrcat, _ => Err EShape
+  | BMalloc, _ | BFree, _ | BMemcpy, _ | BMemmove, _ | BMemset, _ | BMemsetI, _ | BStrcpy, _ | BStrcat, _ => Err EShape
   | _, _ => do v <- do_builtin f args m; Ok (v, m)
   end.
 
